@@ -57,8 +57,21 @@ struct Setup {
     ctx: Value,
 }
 
+/// host callbacks that re-enter the engine while a render is running: a block rendered through
+/// the state, a macro or callable invoked from Rust
+fn host_render_block(state: &mut minijinja::State, name: &str) -> Result<String, minijinja::Error> {
+    state.render_block(name)
+}
+
+fn host_call(state: &mut minijinja::State, f: Value, arg: Value) -> Result<Value, minijinja::Error> {
+    f.call(state, &[arg])
+}
+
 fn setup(c: &FuelCase) -> Option<Setup> {
     let mut env = Environment::new();
+    env.add_function("host_render_block", host_render_block);
+    env.add_function("host_call", host_call);
+    env.add_filter("via_host", host_call);
     for (n, s) in &c.companions {
         let _ = env.add_template_owned(n.clone(), s.clone());
     }
@@ -126,6 +139,12 @@ fn nested_eval_source() -> BoxedStrategy<String> {
         "{{ 1 // 0 }}",
         "{{ nosuch() }}",
         "text",
+        // the host re-enters the engine (same render, same budget)
+        "{{ host_render_block('a') }}",
+        "{% for q in l %}{{ host_render_block('a') }}{% endfor %}",
+        "{{ host_call(mac, 7) }}",
+        "{{ mac|via_host(8) }}{% set hv = host_render_block('a') %}{{ hv }}",
+        "{% macro viahost() %}{{ host_render_block('a') }}{% endmacro %}{{ viahost() }}",
     ]);
     (prop::collection::vec(piece, 1..6), any::<bool>(), any::<bool>())
         .prop_map(|(pieces, inherit, sup)| {
